@@ -45,7 +45,7 @@ TT = 'chainables.tree'
 
 
 def run(ctx: Ctx):
-  for r in (r1, r2, r3, r4, r5, r6, r8, r9, r10, r13, r17, r23, r18, r19, r20, r21, r22):
+  for r in (r1, r2, r3, r4, r5, r6, r8, r9, r10, r13, r17, r23, r24, r18, r19, r20, r21, r22):
     ctx.guard(r)
   from mlmverif.props import c03
   ctx.include('R-C02-7', 'every sliced aggregate sees every slice: the slices of'
@@ -1130,11 +1130,47 @@ def r23(ctx: Ctx):
   ctx.floor(rule, 2, n)
 
 
+def r24(ctx: Ctx):
+  rule = 'R-C02-24'
+  ctx.rule(rule, '"for every slice key it reports exactly the aggregate over the rows belonging to that slice", however the aggregate\'s'
+           ' inputs are BOUND: positional or by keyword, what reaches the aggregate function is what `_get_inputs` selected'
+           ' — the one place where the slice masks are applied. In TreeAggregateFn.update_state the `self._get_inputs(...)` call'
+           ' dominates the call of the aggregate\'s update_state (CFG): a second selection path for keyword-bound inputs'
+           ' (`as_view(inputs)[self.input_keys]`, masks applied only under some condition) updates every slice with the'
+           ' whole unmasked batch')
+  ci = ctx.repo.cls(TF, 'TreeAggregateFn')
+  fi = ci.methods.get('update_state')
+  if fi is None:
+    raise AnalysisError(f'{rule}: TreeAggregateFn.update_state not found')
+  g = cfgm.cfg_of(fi.node)
+  sel = lambda nd: any(isinstance(c, ast.Call) and is_self_attr(c.func) and c.func.attr == '_get_inputs' for c in cfgm.node_exprs(nd))
+  upd = [nd for nd in g.nodes if any(isinstance(c, ast.Call) and isinstance(c.func, ast.Attribute) and c.func.attr == 'update_state'
+                                       and '_actual_fn' in unparse(c.func.value) for c in cfgm.node_exprs(nd))]
+  if not upd:
+    raise AnalysisError(f'{rule}: the call of the aggregate\'s update_state was not found')
+  n = 0
+  for u in upd:
+    n += 1
+    w = g.dominates(sel, u, cfgm.only_normal)
+    what = 'TreeAggregateFn.update_state: the aggregate is fed what _get_inputs selected (and masked)'
+    if w is None:
+      ctx.ok(rule, fi, what, u.ast)
+    else:
+      ctx.fail(rule, fi, what,
+               'a path reaches the aggregate\'s update_state without passing `self._get_inputs(...)`: on that path the inputs are'
+               ' selected another way and the slice masks are not (or only conditionally) applied — a slice is updated with'
+               ' rows that do not belong to it', node=u.ast, witness=w)
+  ctx.floor(rule, 1, n)
+
+
 from mlmverif.selfcheck import B, OK  # noqa: E402
 
 _T = 'chainables/transform.py'
 _F = 'chainables/tree_fns.py'
 VARIANTS = [
+    B('keyword-bound-inputs-selected-beside-get-inputs', 'chainables/tree_fns.py',
+      "      fn_inputs, kw_inputs = self._get_inputs(inputs), {}\n      if self.input_argkeys:\n        fn_inputs, kw_inputs = (), dict(zip(self.input_argkeys, fn_inputs))\n      state = self._actual_fn.update_state(",
+      "      if self.input_argkeys:\n        selected = tree.TreeMapView.as_view(inputs)[self.input_keys]\n        fn_inputs, kw_inputs = (), dict(zip(self.input_argkeys, selected))\n      else:\n        fn_inputs, kw_inputs = self._get_inputs(inputs), {}\n      state = self._actual_fn.update_state(", 'R-C02-24'),
     B('slicer-remembers-the-masks-of-the-last-batch', 'chainables/tree_fns.py',
       "    def _slice_mask_fn(*inputs):\n", "    last_batch = {}\n\n    def _slice_mask_fn(*inputs):\n      last_batch.update(inputs=inputs)\n", 'R-C02-23'),
     OK('filter-marker-compared-the-other-way-round', 'chainables/tree.py',
